@@ -18,10 +18,12 @@ KIND_NAME = {0: "hover", 1: "signatureHelp"}
 def gen_case(rng):
     prog, _ = splgen.well_typed_program(rng, ndecls=rng.choice([1, 2, 2, 3, 3, 4, 5, 6]))
     family = "random"
-    if rng.random() < 0.18:
-        p2 = H.shadow_global(prog, rng)
-        if p2 is not None:
-            prog, family = p2, "local-named-like-a-global"
+    if rng.random() < 0.45:
+        # up to three locals renamed to the name of a global entity (each step keeps the program well-typed)
+        for _ in range(rng.choice([1, 2, 3])):
+            p2 = H.shadow_global(prog, rng)
+            if p2 is not None:
+                prog, family = p2, "local-named-like-a-global"
     return H.Case(prog, rng, newline=rng.choice(["\n", "\n", "\r\n"]), dense=rng.random() < 0.06,
                   p_comment=rng.choice([0.0, 0.05, 0.05, 0.15]), p_doc=rng.choice([0.2, 0.5, 0.9]),
                   p_hot=rng.choice([0.0, 0.3, 0.6]), family=family)
@@ -407,23 +409,37 @@ def run(ctx):
         "explanation": EXPLANATION,
     })
     ctx.assumptions = ["positions never point between the halves of a surrogate pair", "serde/lsp-types JSON mapping trusted",
-                       "the full functional statement (C14_full_statement) is validated by correspondence + oracle, not proved: it needs the "
-                       "pipeline lemma new_doc (render p lay) = expected_doc p lay"]
+                       "signature help: the full functional statement (C14_sighelp_full_statement) is validated by correspondence + "
+                       "oracle, not proved",
+                       "hover: proved for layouts of well-typed abstract programs (C14_hover_valid); that every document without "
+                       "diagnostics is such a layout (completeness of the front end) is not proved"]
     if ctx.thorough() and proved:
         if not common.coqchk(ctx):
             ctx.violation(dict(kind="proof", property="C14", detail="coqchk failed or reports axioms", out=ctx.cov.get("coqchk")), no_input=True)
 
 
 EXPLANATION = (
-    "Proved for ALL documents about the model (Props/C14.v): see the theorem list there - hover answers only on an identifier token "
-    "under the cursor, over exactly that token's position range, with text = spl code block of the Display of a table entry named "
-    "like the identifier followed by the documentation block; no identifier / no context / no entry => no answer; signature help "
-    "answers only with a procedure entry of the global table named like a call statement whose text range contains the cursor, one "
-    "parameter label per parameter of the entry, active parameter = number of commas of the statement that start before the cursor "
-    "(None iff no parameters). The FULL property (hover = signature of the binding + doc comments for every occurrence of every "
-    "well-typed program; signature help inside every argument list) is NOT proved; it is validated by (a) correspondence of the model "
-    "with the running server on every request of this run (extracted judge, plus a kernel vm_compute sample) and (b) the "
-    "implementation-only oracle from splscope's bindings.")
+    "PROVED (Props/C14.v, all closed). Hover, for every VALID program in every layout (C14_hover_valid, C14_hover_valid_text): for "
+    "every abstract program of the grammar whose mandated tree is well-typed under the declarative static semantics (Spec/Typing.v), "
+    "every text that lexes to its tokens (any white space, comments in any gap, any literal spelling), every identifier occurrence of "
+    "the tree and every cursor position inside the identifier token, hover answers with the Display of the table entry the occurrence "
+    "is bound to under SPL scoping (declaration names, names in type expressions and callees globally, everything else in the "
+    "procedure first) followed by the entry's documentation block, over exactly the identifier's range; proof = C04 round trip + C03 "
+    "build/analyze soundness + grammar inductions locating every occurrence and the token in front of it + find_decl on tiling tokens. "
+    "For ALL documents (valid or not): hover answers only on an identifier token under the cursor, over exactly that token's range, "
+    "with the Display of the entry hover_entry finds (which table: C14_hover_entry; what is_global_position computes: "
+    "C14_global_position); no identifier / no context / no entry => no answer; no panic under cursor_pre (evaluated by the judge on "
+    "every document of this run: 0 exceptions); signature help answers only with a procedure entry of the global table named like a "
+    "call statement whose text range contains the cursor, one parameter label per parameter, active parameter = number of commas of "
+    "the statement that start before the cursor (None iff no parameters). NOT proved: signature help inside every argument list of "
+    "every valid program (C14_sighelp_full_statement) and the hover statement in its formulation over 'documents without diagnostics' "
+    "(needs completeness of the front end); that the entry's recorded signature/doc comments are those of the declaration is the "
+    "wf_gdecl relation of Spec/Typing.v (doc comments: concatenation of the comment texts). These, the model's faithfulness to the "
+    "Rust code and signature-help robustness are validated by (a) correspondence of the model with the running server on every "
+    "request of this run (extracted judge, plus a kernel vm_compute sample) and (b) the implementation-only oracle from splscope's "
+    "bindings and the rendered layout. The former defect C14-hover-local-before-global (hover resolved the procedure's own name and "
+    "type names in the local table first) is repaired in /repo b909979; its witnesses are regression corpus and the class is "
+    "counted in input_histogram['hover:global-entity-with-homonymous-local'].")
 
 
 def replay(ctx, path):
